@@ -425,6 +425,41 @@ def run(ctx):
                                    dict(case=name, after=oname, tables=key, lattice=zoo.lat_to_json(l))); break
         ctx.case((name, "tables after operations"), nontrivial=len(ran) >= 4)
         ctx.count("operation_panels_run")
+    # the same graph (vertex count, edge indices, crossings) drawn differently, one lattice right after the other in the same process: mirror images and rotated
+    # copies of open lattices have the same arrays except for the positions, and a different cyclic order round every vertex
+    for name, lb in [("wheel12", eg.higher_coordination_number_example(12)), ("two_triangles", eg.two_triangles()), ("tutte", eg.tutte_graph()), ("tri_square_pent", eg.tri_square_pent()),
+                     ("vor20-xy", cut_boundaries(zoo.voronoi(rng, 20)))]:
+        P, E, C = zoo.raw(lb)
+        if np.any(C != 0):
+            continue
+        th = 0.7
+        R = np.array([[np.cos(th), -np.sin(th)], [np.sin(th), np.cos(th)]])
+        variants_ = [("as given", P), ("mirrored", np.stack([1 - P[:, 0], P[:, 1]], axis=1)), ("rotated", 0.5 + 0.6 * (P - 0.5) @ R.T), ("as given again", P.copy())]
+        for lab, Pv in variants_:
+            if Pv.min() < 0 or Pv.max() >= 1:
+                continue
+            lv = Lattice(Pv.copy(), E.copy(), C.copy())
+            if min_gap(lv) < GAP_MIN:
+                continue
+            try:
+                fails = oracle(lv, tables_of(lv), helpers_of(lv))
+            except Exception as ex:
+                fails = [f"reading the tables raised {type(ex).__name__}: {ex}"]
+            if fails:
+                ctx.impl_violation(f"{name} ({lab}, built right after the same graph in another drawing): {fails[0]}", dict(case=name, drawing=lab, failures=[str(f) for f in fails[:5]], lattice=zoo.lat_to_json(lv)))
+            ctx.case((name, "redrawn", lab), nontrivial=True)
+    # exactly 256 plaquettes (16 x 16 squares): every table of the lattice pickled after its plaquettes were computed, and of a copy, against the oracle
+    import copy as _copy
+    lb = eg.square_lattice(16, 16)
+    try:
+        _ = lb.plaquettes; _ = lb.edges.adjacent_plaquettes; _ = lb.vertices.adjacent_plaquettes
+        for lab, lv in (("unpickled", pickle.loads(pickle.dumps(lb))), ("deep copy", _copy.deepcopy(lb))):
+            fails = oracle(lv, tables_of(lv), helpers_of(lv))
+            if fails:
+                ctx.impl_violation(f"square_lattice(16,16) [256 plaquettes, {lab} after the plaquette tables were computed]: {fails[0]}", dict(case="square16x16", what=lab, failures=[str(f) for f in fails[:5]]))
+            ctx.case(("square16x16", lab), nontrivial=True)
+    except Exception as ex:
+        ctx.impl_violation(f"square_lattice(16,16): raised {type(ex).__name__}: {ex}", dict(case="square16x16"))
     # churn: fresh lattices that are dropped after use (re-used object addresses), judged by the table oracle
     for name, l in zoo.churn(rng, 40 if ctx.tier == "quick" else 400):
         if min_gap(l) < GAP_MIN:
